@@ -161,8 +161,10 @@ def finish(ctx: Ctx, coverage: dict, exhaustive: bool):
     '''write evidence, print KNOWN-FINDING / VIOLATION lines, return exit code'''
     import fnmatch
 
-    os.makedirs(os.path.join(VERIF, 'evidence'), exist_ok=True)
-    os.makedirs(os.path.join(VERIF, 'replays'), exist_ok=True)
+    evdir = os.environ.get('VERIF_EVIDENCE_DIR') or os.path.join(VERIF, 'evidence')
+    rpdir = os.path.join(evdir, 'replays') if os.environ.get('VERIF_EVIDENCE_DIR') else os.path.join(VERIF, 'replays')
+    os.makedirs(evdir, exist_ok=True)
+    os.makedirs(rpdir, exist_ok=True)
     new, known = [], []
     for sig, v in sorted(ctx.violations.items()):
         hit = None
@@ -190,9 +192,7 @@ def finish(ctx: Ctx, coverage: dict, exhaustive: bool):
                 f'note: listed finding not observed in this run: {k["signature"]}'
             )
     for n, (sig, v, _k) in enumerate(new):
-        path = os.path.join(
-            VERIF, 'replays', f'{ctx.pid}-{digest(sig)[:10]}.json'
-        )
+        path = os.path.join(rpdir, f'{ctx.pid}-{digest(sig)[:10]}.json')
         with open(path, 'w', encoding='utf-8') as f:
             json.dump(
                 {
@@ -227,9 +227,7 @@ def finish(ctx: Ctx, coverage: dict, exhaustive: bool):
         'violations': len(new),
         'repo': REPO,
     }
-    with open(
-        os.path.join(VERIF, 'evidence', f'{ctx.pid}.json'), 'w', encoding='utf-8'
-    ) as f:
+    with open(os.path.join(evdir, f'{ctx.pid}.json'), 'w', encoding='utf-8') as f:
         json.dump(ev, f, indent=1, default=repr)
     brief = {
         k: cov[k]
